@@ -195,6 +195,11 @@ def run_case(idx, rng, P, rep):
     if rng.random() < 0.5:
         o.param.watch(o.on_a, 'a')
         hist.append('watch-own-method')
+        if rng.random() < 0.3:
+            # the same method subscribed a second time, identically: two watchers, two calls
+            o.param.watch(o.on_a, 'a')
+            hist.append('watch-own-method-twice')
+            rep.count('twin_watchers')
     if rng.random() < 0.5:
         o.param.watch(o.on_as, ['a', 's'])          # one watcher for several parameters
         hist.append('watch-own-method-multi')
@@ -341,7 +346,7 @@ def run_case(idx, rng, P, rep):
         multi = (['on_as'] if 'watch-own-method-multi' in hist else []) + (['on_private'] if 'watch-private-method' in hist else [])
         if kind == 'a':
             obj.a = tokv()
-            expect = ['m_own'] + (['on_a'] if 'watch-own-method' in hist else []) + multi
+            expect = ['m_own'] + (['on_a'] * (2 if 'watch-own-method-twice' in hist else 1) if 'watch-own-method' in hist else []) + multi
         elif kind == 'a-same':
             # re-assigning the value a parameter holds changes nothing: no dependent method, no changes-only watcher
             if rng.random() < 0.5:
@@ -355,7 +360,7 @@ def run_case(idx, rng, P, rep):
         elif kind == 'update-a-s':
             # one batch changing both: every watcher / dependent method runs once
             obj.param.update(a=tokv(), s='u%d' % int(tokv()))
-            expect = ['m_own'] + (['on_a'] if 'watch-own-method' in hist else []) + multi
+            expect = ['m_own'] + (['on_a'] * (2 if 'watch-own-method-twice' in hist else 1) if 'watch-own-method' in hist else []) + multi
         elif kind in ('sub.x', 'sub.y'):
             if not isinstance(obj.sub, param.Parameterized):
                 continue
